@@ -6,7 +6,7 @@ are installed for the names AES, TripleDES, Camellia, IDEA, ARC4, ChaCha20Poly13
 namespaces of tlexport.decryptor, tlexport.session, tlexport.key_derivator and tlexport.cipher_suite_parser (incl. the class objects stored in
 `cipher_suite_parts`), and in the independent sender harness/gen_tls.py so that the generated traffic is VALID toy
 traffic. Hashes are real on both sides (hashlib / Lean's own MD5, SHA-1, SHA-2).  What is compared: every frame of the
-output file (time, MACs, IPs, IP version, ports, flags, seq, ack, payload), in file order.
+output file (L4 protocol, time, MACs, IPs, IP version, ports, flags, seq, ack, payload), in file order.
 """
 import contextlib
 import types
@@ -102,7 +102,7 @@ def model_lines(items, keylog_lines, opt):
 def render_out(out_bytes):
     rows = []
     for us, d in wire.read_output(out_bytes):
-        rows.append(f"{us}:{hx(d['smac'])}:{hx(d['dmac'])}:{hx(d['src'])}:{d['sport']}:{hx(d['dst'])}:{d['dport']}:"
+        rows.append(f"{'t' if d['proto'] == 6 else 'u' if d['proto'] == 17 else '?'}:{us}:{hx(d['smac'])}:{hx(d['dmac'])}:{hx(d['src'])}:{d['sport']}:{hx(d['dst'])}:{d['dport']}:"
                     f"{1 if d['v6'] else 0}:{d.get('flags', 0)}:{d.get('seq', 0)}:{d.get('ack', 0)}:{hx(d['payload'])}")
     return " ".join(rows) if rows else "empty"
 
